@@ -58,11 +58,24 @@ func (e *Engine) doCall(st *State, fr *Frame, in *ssa.Call) ([]*State, *Outcome)
 	if ok := e.callOpaqueFunc(st, fr, c, fv, args, in); ok {
 		return nil, nil
 	}
-	e.havocCall(st, fr, "call through function value in "+fr.fn.Name(), c.Signature().Results(), in)
+	e.havocCall(st, fr, fmt.Sprintf("call through function value %s (%s) in %s", c.Value.Name(), valString(fv), fr.fn.Name()), c.Signature().Results(), in)
 	return nil, nil
 }
 
 func (e *Engine) callOpaqueFunc(st *State, fr *Frame, c *ssa.CallCommon, fv Val, args []Val, in ssa.Value) bool {
+	// a package-level function variable (e.g. `var IsValidID = regexp.MustCompile(...).MatchString`): an assumed
+	// contract may be registered under the variable's name
+	if u, ok := c.Value.(*ssa.UnOp); ok {
+		if g, ok := u.X.(*ssa.Global); ok {
+			key := g.Pkg.Pkg.Path() + "::" + g.Name()
+			if h, ok := externs[key]; ok {
+				e.usedExterns[key] = true
+				rs, _ := h(e, st, fr, args, nil, c)
+				e.bindResult(fr, in, rs)
+				return true
+			}
+		}
+	}
 	return false
 }
 
@@ -107,6 +120,12 @@ func (e *Engine) builtin(st *State, fr *Frame, b *ssa.Builtin, args []Val, c *ss
 	case "copy":
 		st.notes = append(st.notes, "copy() treated as opaque in "+fr.fn.Name())
 		return mkBV(64, e.C.Fresh("copied", BV(64)), true)
+	case "ssa:wrapnilchk":
+		// wrapnilchk(ptr, recvType, method) returns ptr, panicking if it is nil
+		if p, ok := args[0].(*PtrV); ok && p.Nil {
+			panic(&NilDeref{"nil receiver in method wrapper"})
+		}
+		return args[0]
 	case "print", "println":
 		return TupleV{}
 	case "delete":
@@ -240,6 +259,10 @@ func (e *Engine) callStatic(st *State, fr *Frame, fn *ssa.Function, args []Val, 
 	if e.W.InRepo(fn) && fn.Blocks != nil {
 		e.inlined[key] = true
 		e.pushFrame(st, fn, args, nil, in)
+		return nil, nil
+	}
+	if rs, ok := e.externalGetter(st, fn, args); ok {
+		e.bindResult(fr, in, rs)
 		return nil, nil
 	}
 	pp := fnPkgPath(fn)
@@ -444,7 +467,7 @@ func (e *Engine) callContract(st *State, fr *Frame, fc *FuncContract, fn *ssa.Fu
 			env.vars[rn] = rs[i]
 		}
 	}
-	if len(rs) == 1 {
+	if _, taken := env.vars["result"]; len(rs) == 1 && !taken {
 		env.vars["result"] = rs[0]
 	}
 	for _, ld := range fc.PostLets {
